@@ -15,7 +15,7 @@ from __future__ import annotations
 import ast
 from typing import List, Optional, Set, Tuple
 
-from ..astq import assignments, calls, kwarg, params, stmts
+from ..astq import assignments, calls, kwarg, local_from, local_from_text, params, stmts
 from ..callgraph import fkey
 from ..cfg import CFG, cond_atoms, flatten_conj, path_conditions
 from ..report import Check
@@ -71,36 +71,56 @@ def s1(chk: Check, proj: Project, w, m, f) -> None:
         chk.ob("S1", f"slots:SlotNode.render:{base}.fills", m.loc(r), ok, f"fills come from {why}" if ok else f"`{base}.fills` is not read from the ComponentContext registered under the id found in the context")
 
 
-def s2(chk: Check, proj: Project, w, m, f) -> None:
-    chk.rule("S2", "fill_name is the tag's name, or DEFAULT_SLOT_KEY only under the `default` flag; `fill_name in fills` -> that fill, else a slot function over the tag's own nodelist")
-    a = assignments(f, "fill_name")
-    names = {norm(v) for _s, v in a if v is not None}
+def _slot_roles(f):
+    """Rename-proof names of the locals of SlotNode.render that the rules talk about."""
     name_param = params(f)[2] if len(params(f)) > 2 else "name"
-    slot_name_def = {norm(v) for _s, v in assignments(f, "slot_name") if v is not None}
-    ok = names <= {"DEFAULT_SLOT_KEY", "slot_name", name_param} and slot_name_def <= {name_param}
-    chk.ob("S2", "slots:SlotNode.render:fill_name-provenance", m.loc(a[0][0]) if a else m.loc(f), ok and bool(a), f"fill_name in {sorted(names)}" if ok else f"fill_name can be {sorted(names)}: the fill is looked up under a name that is neither the slot's name nor the default key")
+    is_default = local_from_text(f, "SLOT_DEFAULT_KEYWORD")
+    is_required = local_from_text(f, "SLOT_REQUIRED_KEYWORD")
+    slot_name = local_from(f, lambda v: isinstance(v, ast.Name) and v.id == name_param) or name_param
+    # the fills lookup: <FILLS>[<FN>] assigned to the variable that becomes SlotFill(slot=...)
+    fills = fn = None
+    for c in calls(f, "SlotFill"):
+        fl = kwarg(c, "is_filled")
+        sl = kwarg(c, "slot")
+        if isinstance(fl, ast.Constant) and fl.value is True and isinstance(sl, ast.Name):
+            d = assignments(f, sl.id)
+            if len(d) == 1 and isinstance(d[0][1], ast.Subscript) and isinstance(d[0][1].value, ast.Name) and isinstance(d[0][1].slice, ast.Name):
+                fills, fn = d[0][1].value.id, d[0][1].slice.id
+    return {"name_param": name_param, "is_default": is_default, "is_required": is_required, "slot_name": slot_name, "fills": fills, "fill_name": fn}
+
+
+def s2(chk: Check, proj: Project, w, m, f) -> None:
+    chk.rule("S2", "the looked-up fill name is the tag's name, or DEFAULT_SLOT_KEY only under the `default` flag; `name in fills` -> that fill, else a slot function over the tag's own nodelist")
+    R = _slot_roles(f)
+    if not (R["fills"] and R["fill_name"] and R["is_default"]):
+        chk.undecided("S2", "slots:SlotNode.render:roles", m.loc(f), f"could not identify the fills lookup / default flag variables ({R})")
+        return
+    FN, FILLS, ISD, SN, NP = R["fill_name"], R["fills"], R["is_default"], R["slot_name"], R["name_param"]
+    a = assignments(f, FN)
+    names = {norm(v) for _s, v in a if v is not None}
+    slot_name_def = {norm(v) for _s, v in assignments(f, SN) if v is not None} if SN != NP else {NP}
+    ok = names <= {"DEFAULT_SLOT_KEY", SN, NP} and slot_name_def <= {NP}
+    chk.ob("S2", "slots:SlotNode.render:fill_name-provenance", m.loc(a[0][0]) if a else m.loc(f), ok and bool(a), f"the fill name is one of {sorted(names)}" if ok else f"the fill name can be {sorted(names)}: the fill is looked up under a name that is neither the slot's name nor the default key")
     for s, v in a:
         if v is not None and norm(v) == "DEFAULT_SLOT_KEY":
             atoms = cond_atoms(s)
-            dflt = any(pol and t == "is_default" for t, pol in atoms)
+            dflt = any(pol and t == ISD for t, pol in atoms)
             chk.ob("S2", "slots:SlotNode.render:default-key-only-for-default-slot", m.loc(s), dflt, "the default key is used only for a slot flagged `default`" if dflt else f"`{short(s)}` addresses the implicit body to a slot that is NOT flagged default (conditions {atoms[:2]})")
-    isd = assignments(f, "is_default")
+    isd = assignments(f, ISD)
     okd = len(isd) == 1 and isd[0][1] is not None and "SLOT_DEFAULT_KEYWORD" in norm(isd[0][1]) and "self.flags" in norm(isd[0][1])
-    chk.ob("S2", "slots:SlotNode.render:is_default-from-flag", m.loc(isd[0][0]) if isd else m.loc(f), okd, "is_default is the tag's `default` flag")
-    # lookup / fallback
+    chk.ob("S2", "slots:SlotNode.render:is_default-from-flag", m.loc(isd[0][0]) if isd else m.loc(f), okd, "the default flag variable is the tag's `default` flag")
     sf = [c for c in calls(f, "SlotFill")]
     chk.floor("S2-slotfill", len(sf), 2)
+    member = f"{FN} in {FILLS}"
     for c in sf:
         filled = kwarg(c, "is_filled")
         slot = kwarg(c, "slot")
         atoms = cond_atoms(enclosing_stmt(c))
         if isinstance(filled, ast.Constant) and filled.value is True:
-            src = norm(slot) if slot is not None else "?"
-            d = assignments(f, src)
-            ok = any(pol and t == "fill_name in slot_fills" for t, pol in atoms) and len(d) == 1 and d[0][1] is not None and norm(d[0][1]) == "slot_fills[fill_name]"
-            chk.ob("S2", "slots:SlotNode.render:filled-branch", m.loc(c), ok, "filled: the slot function is slot_fills[fill_name] under `fill_name in slot_fills`" if ok else "the 'filled' SlotFill is not built from slot_fills[fill_name] under the membership test")
+            ok = any(pol and t == member for t, pol in atoms)
+            chk.ob("S2", "slots:SlotNode.render:filled-branch", m.loc(c), ok, f"filled: the slot function is {FILLS}[{FN}] under `{member}`" if ok else "the 'filled' SlotFill is not built under the membership test of the same name in the same fills dict")
         else:
-            ok = any((not pol) and t == "fill_name in slot_fills" for t, pol in atoms) and slot is not None and "nodelist=self.nodelist" in norm(slot)
+            ok = any((not pol) and t == member for t, pol in atoms) and slot is not None and "nodelist=self.nodelist" in norm(slot)
             chk.ob("S2", "slots:SlotNode.render:default-branch", m.loc(c), ok, "not filled: the slot function renders the tag's own nodelist" if ok else "the 'not filled' SlotFill does not render self.nodelist")
 
 
@@ -108,17 +128,21 @@ def s3(chk: Check, proj: Project, w, m, f) -> None:
     chk.rule("S3", "`required and not filled` raises TemplateSyntaxError, and that test dominates the slot call")
     cfg = CFG(f)
     dom = cfg.dominators()
-    guards = [n for n in cfg.nodes if n.kind == "test" and n.ast is not None and "is_required" in norm(n.ast) and "is_filled" in norm(n.ast)]
+    ISR = _slot_roles(f)["is_required"]
+    if ISR is None:
+        chk.undecided("S3", "slots:SlotNode.render:required-flag", m.loc(f), "variable holding the `required` flag not found")
+        return
+    guards = [n for n in cfg.nodes if n.kind == "test" and n.ast is not None and ISR in {x.id for x in ast.walk(n.ast) if isinstance(x, ast.Name)} and "is_filled" in norm(n.ast)]
     call = [c for c in calls(f) if isinstance(c.func, ast.Attribute) and c.func.attr == "slot" and len(c.args) >= 2]
     ok = False
     if guards and call:
         owner = guards[0].meta.get("owner")
         atoms = {(norm(e), pol) for e, pol in flatten_conj([(guards[0].ast, True)])}
-        has = ("is_required", True) in atoms and any(t.endswith(".is_filled") and not pol for t, pol in atoms)
+        has = (ISR, True) in atoms and any(t.endswith(".is_filled") and not pol for t, pol in atoms)
         raises = isinstance(owner, ast.If) and any(isinstance(s, ast.Raise) and "TemplateSyntaxError" in norm(s) for s in owner.body) and isinstance(owner.body[-1], ast.Raise)
         ok = has and raises and all(cfg.dominates(guards[0], cn, dom) for c in call for cn in cfg.node_containing(c))
     chk.ob("S3", "slots:SlotNode.render:required-guard", m.loc(guards[0].ast) if guards else m.loc(f), ok, "a required slot without a fill raises TemplateSyntaxError before the slot is rendered" if ok else "the required-slot check is missing, does not raise TemplateSyntaxError, or does not dominate the slot call")
-    isr = assignments(f, "is_required")
+    isr = assignments(f, ISR)
     okr = len(isr) == 1 and isr[0][1] is not None and "SLOT_REQUIRED_KEYWORD" in norm(isr[0][1])
     chk.ob("S3", "slots:SlotNode.render:is_required-from-flag", m.loc(isr[0][0]) if isr else m.loc(f), okr, "is_required is the tag's `required` flag")
 
@@ -148,20 +172,22 @@ def s4(chk: Check, proj: Project, w) -> None:
     chk.ob("S4", "component:_normalize_slot_fills:drops-only-none", m2.loc(skips[0]) if skips else m2.loc(loop), ok, "only `None` content is dropped" if ok else
            f"normalisation drops content when `{short(skips[0].test) if skips else '?'}`: an empty-string fill passed from Python is treated as not provided (default rendered, is_filled False) unlike an empty {{% fill %}}")
     st = [s for s in loop.body if isinstance(s, ast.Assign) and isinstance(s.targets[0], ast.Subscript)]
-    kvar = loop.target.elts[0].id if isinstance(loop.target, ast.Tuple) else "slot_name"  # type: ignore[union-attr]
+    kvar = loop.target.elts[0].id if isinstance(loop.target, ast.Tuple) else "?"  # type: ignore[union-attr]
     okk = len(st) == 1 and norm(st[0].targets[0].slice) == kvar
     chk.ob("S4", "component:_normalize_slot_fills:same-name", m2.loc(st[0]) if st else m2.loc(loop), okk, "each fill is stored under the name it was given")
     # resolve_fills registration keys
     m3, f3 = proj.func("slots", "resolve_fills")
     chk.analysed(fkey(m3, f3))
-    regs = [s for s in stmts(f3) if isinstance(s, ast.Assign) and isinstance(s.targets[0], ast.Subscript) and norm(s.targets[0].value) == "slots"]
+    retv = next((norm(r.value) for r in stmts(f3) if isinstance(r, ast.Return) and isinstance(r.value, ast.Name)), "slots")
+    regs = [s for s in stmts(f3) if isinstance(s, ast.Assign) and isinstance(s.targets[0], ast.Subscript) and norm(s.targets[0].value) == retv]
     for s in regs:
         k = norm(s.targets[0].slice)
         c = s.value if isinstance(s.value, ast.Call) else None
         nl = norm(kwarg(c, "nodelist")) if c is not None and kwarg(c, "nodelist") is not None else "?"
         if k == "DEFAULT_SLOT_KEY":
             atoms = cond_atoms(s)
-            ok = nl == params(f3)[1] and any(pol and "maybe_fills is False" in t for t, pol in atoms)
+            mf = local_from(f3, lambda v: isinstance(v, ast.Call) and last_attr(v.func) == "_extract_fill_content") or "?"
+            ok = nl == params(f3)[1] and any(pol and f"{mf} is False" in t for t, pol in atoms)
             chk.ob("S4", "slots:resolve_fills:implicit-body-under-default-key", m3.loc(s), ok, "the implicit body (whole nodelist) is registered under the default key only when no {% fill %} was found")
         else:
             ok = k.endswith(".name") and nl.startswith(k[: -len(".name")]) and nl.endswith(".nodelist")
@@ -215,13 +241,27 @@ def s5(chk: Check, proj: Project, w) -> None:
             a = assignments(f, norm(v)) if isinstance(v, ast.Name) else []
             ok = v is not None and len(a) == 1 and a[0][1] is not None and norm(a[0][1]) == f"context['{fld}']"
             why = f"{fld} = context['{fld}'] (what get_context_data resolved)"
+        elif fld == "context":
+            # the context of the tag, as a SNAPSHOT taken in get_context_data (the live one is stale by now)
+            ok = False
+            why = "context = snapshot of the input context taken in get_context_data"
+            if isinstance(v, ast.Subscript) and isinstance(v.slice, ast.Constant) and norm(v.value) == params(f)[1]:
+                gm, gf = proj.func("components.dynamic", "DynamicComponent.get_context_data")
+                for d in [x for x in ast.walk(gf) if isinstance(x, ast.Dict)]:
+                    for k, val in zip(d.keys, d.values):
+                        if isinstance(k, ast.Constant) and k.value == v.slice.value and norm(val) == "snapshot_context(self.input.context)":
+                            ok = True
+            elif v is not None and norm(v) == "self.input.context":
+                ok = True  # forwarded, but live: reported by C05-S6 / C03-S5 (not a forwarding gap)
+                why = "context = self.input.context (forwarded; liveness is judged by C05-S6)"
         else:
             ok = v is not None and norm(v) == f"self.input.{fld}"
             why = f"{fld} = self.input.{fld}"
         chk.ob("S5", f"components.dynamic:on_render_before:forwards-{fld}", m.loc(c), ok, why if ok else f"the inner render does not receive `{fld}` from the dynamic component's own input (got `{short(v) if v is not None else 'nothing'}`): rendering through `is=` differs from the plain component tag")
     esc = kwarg(c, "escape_slots_content")
     chk.ob("S5", "components.dynamic:on_render_before:no-double-escape", m.loc(c), isinstance(esc, ast.Constant) and esc.value is False, "slots were already normalised: escape_slots_content=False")
-    inst = [x for x in calls(f) if isinstance(x.func, ast.Name) and x.func.id == "comp_class"]
+    recv = c.func.value.id if isinstance(c.func, ast.Attribute) and isinstance(c.func.value, ast.Name) else None
+    inst = [v for _s, v in assignments(f, recv) if isinstance(v, ast.Call)] if recv else []
     oki = bool(inst) and norm(kwarg(inst[0], "outer_context") or ast.Constant(value=0)) == "self.outer_context" and norm(kwarg(inst[0], "registry") or ast.Constant(value=0)) == "self.registry" and norm(kwarg(inst[0], "registered_name") or ast.Constant(value=0)) == "self.registered_name"
     chk.ob("S5", "components.dynamic:on_render_before:instance-inherits-identity", m.loc(inst[0]) if inst else m.loc(f), oki, "the inner instance gets the dynamic component's registered name, outer context and registry")
 
